@@ -5643,11 +5643,20 @@ class Parser:
         return self.expression(exp.Qualify(this=self._parse_disjunction()))
 
     def _parse_connect_with_prior(self) -> exp.Expr | None:
+        # PRIOR is only a function inside CONNECT BY. Restore whatever was registered before, also
+        # when the condition fails to parse and when CONNECT BY clauses are nested (the inner one
+        # used to pop the entry, so the outer pop raised KeyError).
+        previous = self.NO_PAREN_FUNCTION_PARSERS.get("PRIOR")
         self.NO_PAREN_FUNCTION_PARSERS["PRIOR"] = lambda self: self.expression(
             exp.Prior(this=self._parse_bitwise())
         )
-        connect = self._parse_disjunction()
-        self.NO_PAREN_FUNCTION_PARSERS.pop("PRIOR")
+        try:
+            connect = self._parse_disjunction()
+        finally:
+            if previous is None:
+                self.NO_PAREN_FUNCTION_PARSERS.pop("PRIOR", None)
+            else:
+                self.NO_PAREN_FUNCTION_PARSERS["PRIOR"] = previous
         return connect
 
     def _parse_connect(self, skip_start_token: bool = False) -> exp.Connect | None:
